@@ -24,7 +24,7 @@ TOLERANCES = {"all": "bit-identical (torch.equal)"}
 
 @st.composite
 def _same_case(draw, tier):
-    cfg = draw(history.configs(wrappers=("interval", "interval", "interval", "reverse", "tree", "path")))
+    cfg = draw(history.configs(wrappers=("interval", "interval", "interval", "reverse", "reverse2", "tree", "path")))
     if cfg["wrapper"] == "path":
         cfg["wrapper"] = "interval"       # BrownianPath takes no entropy argument
         cfg["cache_size"] = None
